@@ -20,7 +20,7 @@ ASSUMPTIONS = ['reference amplifier law evaluated in Python floats; relative tol
                'range limits are not asserted here (C07 owns them); only their equality between equivalent calls']
 BUDGET = {
     'quick': dict(examples=2400, time_s=300),
-    'thorough': dict(examples=100000, time_s=1800),
+    'thorough': dict(examples=100000, time_s=1800, fuzz=dict(workers=8, runs=6000, max_s=300)),
 }
 
 A0 = st.one_of(st.sampled_from([0.0, 0.0, 1.0, 2.0, 3.0, 4.0, 4.5, 5.0, 8.0]), st.floats(0.1, 8.0))
